@@ -26,5 +26,17 @@ Close2(a, b, k) ==
                  dh == x[1] - y[1]  dl == x[2] - y[2] IN
              /\ Abs(dh) <= 1
              /\ Abs(dh * 100000000 + dl) <= Pow10(17 - k)
+\* a - b as a Dec (exact when the leading limbs differ by at most 20 units, else to 9 digits)
+Sub2(a, b) ==
+   IF IsZero2(a) /\ IsZero2(b) THEN Zero
+   ELSE IF IsZero2(b) THEN ToDec(a) ELSE IF IsZero2(a) THEN Neg(ToDec(b))
+   ELSE LET e == IF a[3] > b[3] THEN a[3] ELSE b[3]
+            da == e - a[3]  db == e - b[3] IN
+        IF da > 8 THEN Neg(ToDec(b)) ELSE IF db > 8 THEN ToDec(a)
+        ELSE LET x == Shift2(a, da)  y == Shift2(b, db)
+                 dh == x[1] - y[1]  dl == x[2] - y[2] IN
+             IF Abs(dh) <= 20 THEN <<dh * 100000000 + dl, e>> ELSE <<dh, e + 8>>
+\* |a - b| < 10^(Mag(scale) - k): the scale is supplied (largest term that entered a or b)
+Close2At(a, b, scale, k) == LET d == Sub2(a, b) IN d[1] = 0 \/ Mag(d) <= Mag(scale) - k
 Equal2(a, b) == (IsZero2(a) /\ IsZero2(b)) \/ a = b
 =============================================================================
